@@ -27,6 +27,22 @@ class _ReentrancySwitches(threading.local):
 _switches = _ReentrancySwitches()
 
 
+class _SavedSlice(threading.local):
+    # the index of the subscript being evaluated, between its before_subscript_* emission and the
+    # `_load_saved_slice` emission that stands in for it in the rewritten code.  The two emissions must
+    # pair up whichever tracers take part in them (thread, reentrancy and file filters may skip any tracer),
+    # so the value is kept here, per thread, and not by a handler.
+    value = None
+
+
+_saved_slice = _SavedSlice()
+_SUBSCRIPT_EVENT_NAMES = {
+    "before_subscript_load",
+    "before_subscript_store",
+    "before_subscript_del",
+}
+
+
 @contextmanager
 def allow_reentrant_event_handling():
     orig_allow_reentrant_handling = _switches.allow_reentrant_event_handling
@@ -172,4 +188,11 @@ def _emit_event(event, node_id, **kwargs):
     finally:
         _switches.allow_event_handling = orig_allow_event_handling
         _switches.allow_reentrant_event_handling = orig_allow_reentrant_event_handling
+    if event in _SUBSCRIPT_EVENT_NAMES:
+        # after the handlers (which may evaluate subscripts of their own), right before the index is used
+        _saved_slice.value = kwargs.get("attr_or_subscript")
+    elif event == "_load_saved_slice":
+        saved = _saved_slice.value
+        _saved_slice.value = None
+        return saved
     return _make_ret(event, kwargs.get("ret"))
